@@ -70,7 +70,7 @@ Proof.
 Qed.
 
 Theorem C04_MacdRsi (m : strategy_compound_MacdRsiStrategy (T:=T)) :
-  adm_strategy_compound_MacdRsiStrategy m = true ->
+  adm_strategy_compound_MacdRsiStrategy (I:=snap) (T:=T) m = true ->
   mono0 (strategy_compound_MacdRsiStrategy_Compute (I:=snap) m).
 Proof.
   intros Hadm. unfold adm_strategy_compound_MacdRsiStrategy in Hadm.
